@@ -357,6 +357,9 @@ _from_scope_node = Contract(
     notes='nested function of create_context; parent_scope is abstract with the kinds it can return as its contract',
 )
 
+_complete_getattr.exception_free = True
+_from_scope_node.exception_free = True
+
 
 def dynamic_contracts(repo):
     """Signature.index is computed lazily when a result of get_signatures() is looked at: the exception-freedom
